@@ -3,7 +3,7 @@ from .. import core, traces, universe as U
 
 
 def _mixtures(tier):
-    return ["H2O_EtOH", "MeOH_DMC", "S2", "S5"] if tier == "quick" else list(U.ALL_MIXTURES)
+    return ["H2O_EtOH", "MeOH_DMC", "S5", "S6"] if tier == "quick" else list(U.ALL_MIXTURES)
 
 
 def _model_ok(c):
@@ -43,9 +43,10 @@ def ideal_space(tier, seed, coarse=False):
 
 CURVE_CONFIGS = {
     "one": {"law": "lawA", "temps": [333.15]},
-    "two": {"law": "lawA", "temps": [313.15, 343.15]},
+    "two": {"law": "lawA", "temps": [343.15, 313.15]},  # NOT in ascending temperature order
     "oneB_molar": {"law": "lawB", "temps": [333.15], "basis": "molar"},
-    "threeB_SI": {"law": "lawB", "temps": [313.15, 333.15, 353.15], "units": "SI"},
+    "threeB_SI": {"law": "lawB", "temps": [333.15, 313.15, 353.15], "units": "SI"},
+    "two_sameT": {"law": "lawB", "temps": [333.15, 333.15]},  # two curves, one temperature: still a multi-curve set
     "oneC": {"law": "lawC", "temps": [333.15]},
 }
 
